@@ -67,7 +67,7 @@ type knownFinding struct {
 
 // NewReport creates a report and loads known_findings.txt from verifDir.
 func NewReport(prop, tier string, seed int64, prog *Program, verifDir string) *Report {
-	r := &Report{Prop: prop, Tier: tier, Seed: seed, Prog: prog, start: time.Now(), VerifDir: verifDir, Extra: map[string]interface{}{}}
+	r := &Report{Prop: prop, Tier: tier, Seed: seed, Prog: prog, start: ProcessStart, VerifDir: verifDir, Extra: map[string]interface{}{}}
 	if verifDir != "" {
 		r.loadKnown(filepath.Join(verifDir, "known_findings.txt"))
 	}
@@ -100,6 +100,9 @@ func (r *Report) loadKnown(path string) {
 		}
 	}
 }
+
+// ProcessStart is when this process began (loading and type-checking /repo is part of every check).
+var ProcessStart = time.Now()
 
 // Rule starts (or continues) a rule.
 func (r *Report) Rule(id, desc string, floor int) *RuleRun {
